@@ -242,8 +242,19 @@ def lane(pid, tier, cov, ledger, findings, assumptions):
             if ob_id not in ledger:
                 out['undecided'].append('%s fails but never verified on the baseline tree (not in ledger)' % ob_id)
                 continue
-            pb = run_harnesses([n], playback=True)
-            cex = extract_playback(pb.get('raw', ''))
+            # counterexample extraction + native replay are expensive (a fresh build each): cached per tree state and harness,
+            # and at most 3 new extractions per run (further failing harnesses are reported without a concrete input)
+            pkey = hashlib.sha256((tree_hash() + '|playback|' + n).encode()).hexdigest()
+            ppath = os.path.join(CACHE, 'pb-' + pkey + '.json')
+            cached_pb = json.load(open(ppath)) if os.path.exists(ppath) and not os.environ.get('VERIF_NO_CACHE') else None
+            if cached_pb is None and out.setdefault('_pb_count', 0) >= 3:
+                cex = None
+            elif cached_pb is not None:
+                cex = cached_pb.get('cex')
+            else:
+                out['_pb_count'] = out.get('_pb_count', 0) + 1
+                pb = run_harnesses([n], playback=True)
+                cex = extract_playback(pb.get('raw', ''))
             vals = re.findall(r'(?m)^\s*//\s*(\S.*)$', cex or '')
             payload = {'property': pid, 'obligation': ob_id, 'lane': 'kani', 'harness': n, 'module': h['module'], 'kind': h['kind'],
                        'failing_input_values_in_any_order': vals,
@@ -251,8 +262,11 @@ def lane(pid, tier, cov, ledger, findings, assumptions):
                        'counterexample': cex, 'replay': 'python3 /verif/check.py --replay <this file>  (runs the concrete values natively against the real code)'}
             rep = None
             if cex:
-                rep = native_replay(h, n, cex)
+                rep = cached_pb.get('native_replay') if cached_pb else native_replay(h, n, cex)
                 payload['native_replay'] = rep
+                if not cached_pb:
+                    os.makedirs(CACHE, exist_ok=True)
+                    json.dump({'cex': cex, 'native_replay': rep}, open(ppath, 'w'))
             path = driver.write_replay(pid, ob_id, payload)
             out['violations'].append((ob_id, path, bool(cex)))
             continue
@@ -265,6 +279,7 @@ def lane(pid, tier, cov, ledger, findings, assumptions):
         'harnesses': n_ob, 'successful': n_ok, 'wall_s': r.get('wall_s'), 'cache': r.get('cache'),
         'per_harness': {n: {'status': r['results'][n]['status'], 'time_s': r['results'][n].get('time_s'), 'kind': table[n]['kind'], 'checks': r['results'][n].get('checks_total')} for n in names if n in r['results']},
         'cmd': r.get('cmd')}
+    out.pop('_pb_count', None)
     bounded = [n for n in names if table[n]['kind'].startswith('bounded')]
     if bounded:
         cov['bounded_stand_ins'] = {n: table[n]['kind'] for n in bounded}
